@@ -459,6 +459,10 @@ func (c *Chain) MsgOn(ctx sdk.Context, msg sdk.Msg) Result {
 		if err != nil {
 			return nil, err
 		}
+		// the router runs the handler under its own event manager and returns the events in the result
+		for _, e := range r.GetEvents() {
+			ctx.EventManager().EmitEvent(sdk.Event(e))
+		}
 		return r, nil
 	})
 }
